@@ -469,6 +469,41 @@ def origins(f, d, depth=0, seen=None):
     return [d]
 
 
+def local_container_pushes(f, o):
+    """Collect-then-act: if origin `o` is an element of a *local* container of f that starts empty and is only filled
+    by push_back / emplace_back (`v[k]`, `v.front()`, `*it` / range-for element of v), the list of (push event, pushed
+    value); otherwise [].  The facts that select an element are the facts at its push, not at its later use."""
+    o = strip(o)
+    cont = None
+    if isinstance(o, dict) and o.get('k') == 'call' and 'recv' in o and \
+            (o.get('op') == '[]' or lastname(o.get('name')) in ('front', 'back', 'at', 'operator[]')):
+        cont = strip(unwrap_conv(o['recv']))
+    elif isinstance(o, dict) and o.get('k') == 'elem':
+        cont = strip(unwrap_conv(o.get('of')))
+    if not (isinstance(cont, dict) and cont.get('k') == 'var' and cont.get('vk') == 'local'):
+        return []
+    name = cont['n']
+    # the container has no definition other than an empty construction, and nothing but appends changes it
+    for e in f.events():
+        if e['k'] == 'decl' and e['n'] == name and e.get('init') is not None:
+            i = strip(e['init'])
+            if not (isinstance(i, dict) and i.get('k') == 'ctor' and not i.get('args')):
+                return []
+        if e['k'] == 'asg' and isinstance(strip(e['l']), dict) and strip(e['l']).get('k') == 'var' and strip(e['l'])['n'] == name:
+            return []
+    out = []
+    for e in f.events('call'):
+        r = strip(e.get('recv'))
+        if not (isinstance(r, dict) and r.get('k') == 'var' and r.get('n') == name):
+            continue
+        ln = lastname(e.get('name'))
+        if ln in ('push_back', 'emplace_back') and e.get('args'):
+            out.append((e, e['args'][0]))
+        elif ln in ('insert', 'assign', 'swap', 'resize', 'emplace', 'operator='):
+            return []           # filled some other way: not understood
+    return out
+
+
 # ---- loops ----------------------------------------------------------------------------------------
 
 def _plain_field(d, field=None):
